@@ -336,7 +336,9 @@ def Rodas(dae: nDAE,
                 warnings.warn("Time steps more than 10000! Rodas breaks. Try input a smaller tspan!")
                 done = True
 
-            if np.abs(tend - t) < uround or stop:
+            # adaptive steps end at tend itself (the last step assigns it); only fixed steps, which accumulate t,
+            # need the closeness test -- an absolute 2.2e-16 is not 'at tend' on a short span
+            if t >= tend or (opt.fix_h and np.abs(tend - t) < uround) or stop:
                 done = True
             y0 = ynew
             facmax = opt.fac2
